@@ -145,6 +145,7 @@ type cpeer struct {
 	cc     *ccrdt.Consensus
 	store  *ctlDS
 	trk    *tracker
+	ps     *pubsub.PubSub
 	cancel context.CancelFunc
 }
 
@@ -261,7 +262,7 @@ func newPeer(pc peerCfg, vt *valTable) (*cpeer, error) {
 		cancel()
 		return nil, fmt.Errorf("consensus not ready")
 	}
-	return &cpeer{h: rh, cc: cc, store: store, trk: trk, cancel: cancel}, nil
+	return &cpeer{h: rh, cc: cc, store: store, trk: trk, ps: psub, cancel: cancel}, nil
 }
 
 func (p *cpeer) close() {
